@@ -180,3 +180,194 @@ Proof.
   unfold ok_C19. cbn [forallb fst snd]. rewrite Hs. cbn [N.eqb andb].
   subst s'. apply IH; [apply next_inv; assumption|exact Hw2].
 Qed.
+
+(** ---------------------------------------------------------------- Prop-level statements *)
+Lemma refuse_untouched : forall s oc file now,
+  (file = None \/ exists t, file = Some t /\ spec_ips oc t = []) ->
+  exists r, next s (OSighup file oc now) = (s, Some (ARefuse r), []).
+Proof.
+  intros s oc file now [H|[t [H1 H2]]]; subst file; cbn [next analyze_file].
+  - eexists. reflexivity.
+  - rewrite spec_ips_lines in H2. pose proof (analyze_text_spec oc t) as H.
+    destruct (analyze_text oc t) as [l fi|r].
+    + destruct H as [Ha Hb]. congruence.
+    + eexists. reflexivity.
+Qed.
+
+Lemma idle_tick_untouched : forall s fail fresh now,
+  pend s = None -> next s (OTick fail fresh now) = (s, None, []).
+Proof. intros s fail fresh now H. cbn [next]. rewrite H. reflexivity. Qed.
+
+Lemma applied_is_filter : forall s oc t now,
+  spec_ips oc t <> [] ->
+  exists fi,
+    analyze_file oc (Some t) = AApply (spec_ips oc t) fi /\
+    let s1 := fst (fst (next s (OSighup (Some t) oc now))) in
+    pend s1 = Some (spec_ips oc t) /\ conns s1 = conns s /\ io s1 = io s /\
+    trk s1 = trk s /\ sel s1 = sel s.
+Proof.
+  intros s oc t now Hne. cbn [next analyze_file]. rewrite spec_ips_lines in *.
+  pose proof (analyze_text_spec oc t) as H.
+  destruct (analyze_text oc t) as [l fi|r].
+  - destruct H as [Ha Hb]. subst l. exists fi. repeat split.
+  - congruence.
+Qed.
+
+Lemma tick_applies_pending : forall s D fail fresh now,
+  pend s = Some D ->
+  let s1 := fst (fst (next s (OTick fail fresh now))) in
+  let s' := fst (apply_changes D fail fresh s) in
+  conns s1 = conns s' /\ io s1 = io s' /\ trk s1 = trk s' /\ sel s1 = sel s' /\ pend s1 = None.
+Proof.
+  intros s D fail fresh now H. cbn [next]. rewrite H.
+  destruct (apply_changes D fail fresh s) as [s' att]. repeat split.
+Qed.
+
+Lemma survivors_identical : forall D fail fresh s,
+  Inv s -> fresh_ok s (needed_ips (map l_lab (conns s)) D) fail fresh ->
+  let s' := fst (apply_changes D fail fresh s) in
+  exists added,
+    conns s' = filter (keep D) (conns s) ++ added /\
+    (forall c, In c (filter (keep D) (conns s)) ->
+               io_get (l_id c) (io s') = io_get (l_id c) (io s)) /\
+    (forall c, In c added -> ~ In (l_lab c) (map l_lab (conns s)) /\ ~ In (l_id c) (ids s)).
+Proof.
+  intros D fail fresh s HI Hf s'.
+  destruct (apply_facts D fail fresh s (inv_ids s HI) (inv_trk_keys s HI) Hf)
+    as [added [A1 [A2 [A3 [A4 [A5 [A6 [A7 [A8 [A9 [A10 A11]]]]]]]]]]].
+  exists added. split; [exact A1|]. split; [exact A6|].
+  intros c Hc. split.
+  - assert (Hin : In (l_lab c) (map l_lab added)) by (apply in_map; exact Hc).
+    rewrite A2 in Hin. apply filter_In in Hin. destruct Hin as [Hin _].
+    apply needed_In in Hin. tauto.
+  - destruct Hf as [_ [Hf2 _]]. intro Hin. apply (Hf2 (l_id c)); [|exact Hin].
+    apply A4. apply in_map. exact Hc.
+Qed.
+
+Lemma removed_exactly : forall D fail fresh s,
+  Inv s -> fresh_ok s (needed_ips (map l_lab (conns s)) D) fail fresh ->
+  let s' := fst (apply_changes D fail fresh s) in
+  (forall c, In c (conns s) -> keep D c = false ->
+     ~ In (l_id c) (ids s') /\ io_get (l_id c) (io s') = None /\
+     (forall seq now, trk_get seq now (trk s') <> Some (l_id c))) /\
+  (forall seq now j, trk_get seq now (trk s) = Some j ->
+     (forall c, In c (conns s) -> keep D c = false -> l_id c <> j) ->
+     trk_get seq now (trk s') = Some j) /\
+  (forall seq now, trk_get seq now (trk s) = None -> trk_get seq now (trk s') = None).
+Proof.
+  intros D fail fresh s HI Hf s'.
+  destruct (apply_facts D fail fresh s (inv_ids s HI) (inv_trk_keys s HI) Hf)
+    as [added [A1 [A2 [A3 [A4 [A5 [A6 [A7 [A8 [A9 [A10 A11]]]]]]]]]]].
+  fold s' in A7, A8. split; [|split].
+  - intros c Hc Hk.
+    assert (Hr : In (l_id c) (rid s D)) by (apply rid_in; exists c; auto).
+    destruct (A7 _ Hr) as [H1 H2]. split; [exact H2|]. split; [exact H1|].
+    intros seq now. rewrite A8. destruct (trk_get seq now (trk s)) as [j|]; [|discriminate].
+    destruct (mem j (rid s D)) eqn:E; [discriminate|].
+    intro H. injection H as H. subst j. apply mem_In in Hr. congruence.
+  - intros seq now j Hj Hn. rewrite A8, Hj.
+    destruct (mem j (rid s D)) eqn:E; [|reflexivity].
+    apply mem_In in E. apply rid_in in E. destruct E as [c [Hc [Hk Hid]]].
+    exfalso. eapply Hn; eauto.
+  - intros seq now Hn. rewrite A8, Hn. reflexivity.
+Qed.
+
+Lemma added_once : forall D fail fresh s,
+  Inv s -> fresh_ok s (needed_ips (map l_lab (conns s)) D) fail fresh ->
+  let s' := fst (apply_changes D fail fresh s) in
+  exists added,
+    conns s' = filter (keep D) (conns s) ++ added /\
+    NoDup (map l_lab added) /\
+    (forall a, In a (map l_lab added) <->
+               In a D /\ ~ In a (map l_lab (conns s)) /\ ~ In a fail) /\
+    map l_lab added = filter (fun a => negb (mem a fail)) (needed_ips (map l_lab (conns s)) D) /\
+    (forall c, In c added -> l_ip c = l_lab c /\ exists tok, io_get (l_id c) (io s') = Some tok) /\
+    snd (apply_changes D fail fresh s) = needed_ips (map l_lab (conns s)) D /\
+    NoDup (snd (apply_changes D fail fresh s)).
+Proof.
+  intros D fail fresh s HI Hf s'.
+  pose proof (apply_inv D fail fresh s HI Hf) as HI'. fold s' in HI'.
+  destruct (apply_facts D fail fresh s (inv_ids s HI) (inv_trk_keys s HI) Hf)
+    as [added [A1 [A2 [A3 [A4 [A5 [A6 [A7 [A8 [A9 [A10 A11]]]]]]]]]]].
+  fold s' in A1. exists added. split; [exact A1|].
+  split; [rewrite A2; apply NoDup_filter; apply needed_NoDup|].
+  split.
+  { intro a. rewrite A2. rewrite filter_In. rewrite needed_In. unfold notfail.
+    destruct (mem a fail) eqn:E.
+    - apply mem_In in E. split; [intros [_ H]; discriminate|tauto].
+    - apply mem_nIn in E. tauto. }
+  split; [exact A2|].
+  split.
+  { intros c Hc. split.
+    - rewrite Forall_forall in A3. apply A3. exact Hc.
+    - apply io_get_in. apply (inv_io_ids s' HI'). unfold ids. rewrite A1.
+      rewrite map_app. apply in_or_app. right. apply in_map. exact Hc. }
+  split; [exact A11|]. rewrite A11. apply needed_NoDup.
+Qed.
+
+Lemma nth_link_app : forall i l a c, nth_link i l = Some c -> nth_link i (l ++ a) = Some c.
+Proof.
+  intros i l a c. unfold nth_link. destruct (0 <=? i); [|discriminate].
+  intro H. rewrite nth_error_app1; [exact H|]. apply nth_error_Some. congruence.
+Qed.
+
+Lemma forget_choice : forall D fail fresh s,
+  Inv s -> fresh_ok s (needed_ips (map l_lab (conns s)) D) fail fresh ->
+  let s' := fst (apply_changes D fail fresh s) in
+  ((exists c, In c (conns s) /\ keep D c = false) -> sel s' = None) /\
+  ((forall c, In c (conns s) -> keep D c = true) ->
+     sel s' = sel s /\
+     forall i c, nth_link i (conns s) = Some c -> nth_link i (conns s') = Some c).
+Proof.
+  intros D fail fresh s HI Hf s'.
+  destruct (apply_facts D fail fresh s (inv_ids s HI) (inv_trk_keys s HI) Hf)
+    as [added [A1 [A2 [A3 [A4 [A5 [A6 [A7 [A8 [A9 [A10 A11]]]]]]]]]]].
+  fold s' in A1, A9. split.
+  - intros [c [Hc Hk]]. rewrite A9.
+    assert (Hr : In (l_id c) (rid s D)) by (apply rid_in; exists c; auto).
+    destruct (rid s D); [destruct Hr|reflexivity].
+  - intro Hall.
+    assert (Hr : rid s D = []).
+    { destruct (rid s D) as [|x r] eqn:E; [reflexivity|].
+      assert (Hx : In x (rid s D)) by (rewrite E; left; reflexivity).
+      apply rid_in in Hx. destruct Hx as [c [Hc [Hk _]]]. rewrite (Hall c Hc) in Hk. discriminate. }
+    split; [rewrite A9, Hr; reflexivity|].
+    intros i c Hn. rewrite A1. fold (kept s D). rewrite (rid_nil_kept s D Hr).
+    apply nth_link_app. exact Hn.
+Qed.
+
+(** ---------------------------------------------------------------- the oracle premise is satisfiable *)
+Fixpoint seqZ (a : Z) (n : nat) : list Z :=
+  match n with O => [] | S k => a :: seqZ (a + 1) k end.
+Lemma seqZ_ge : forall n a x, In x (seqZ a n) -> a <= x.
+Proof.
+  induction n as [|n IH]; intros a x H; simpl in H; [destruct H|].
+  destruct H as [H|H]; [lia|]. apply IH in H. lia.
+Qed.
+Lemma seqZ_NoDup : forall n a, NoDup (seqZ a n).
+Proof.
+  induction n as [|n IH]; intro a; simpl; constructor; [|apply IH].
+  intro H. apply seqZ_ge in H. lia.
+Qed.
+Lemma seqZ_length : forall n a, length (seqZ a n) = n.
+Proof. induction n as [|n IH]; intro a; simpl; [reflexivity|]. rewrite IH. reflexivity. Qed.
+Definition zmax (l : list Z) : Z := fold_right Z.max 0 l.
+Lemma zmax_ge : forall l x, In x l -> x <= zmax l.
+Proof.
+  induction l as [|y t IH]; intros x H; simpl in *; [destruct H|].
+  destruct H as [H|H]; [lia|]. apply IH in H. lia.
+Qed.
+
+Lemma filter_le : forall {A} (f : A -> bool) l, (length (filter f l) <= length l)%nat.
+Proof.
+  intros A f l. induction l as [|x t IH]; simpl; [lia|]. destruct (f x); simpl; lia.
+Qed.
+
+Lemma fresh_exists : forall s attempt fail, exists fresh, fresh_ok s attempt fail fresh.
+Proof.
+  intros s attempt fail.
+  exists (map (fun id => (id, @nil Z)) (seqZ (zmax (ids s) + 1) (length attempt))).
+  unfold fresh_ok. rewrite map_map. simpl. rewrite map_id. split; [apply seqZ_NoDup|]. split.
+  - intros id Hin Hids. apply seqZ_ge in Hin. apply zmax_ge in Hids. lia.
+  - rewrite map_length, seqZ_length. apply filter_le.
+Qed.
